@@ -551,3 +551,30 @@ def enum_exprs(size, names=('a', 'b')):
         memo[n] = out
         return out
     return go(size)
+
+
+# ------------------------------------------------------------------ targeted binder shapes (always run by C06 and C07)
+def shadowing_programs():
+    """programs in which a later let initialiser reads or assigns an earlier binding of the same let that shadows an outer
+    variable, and function bodies that use an outer name and then define it locally (define after use)"""
+    S = Sym
+    out = []
+    for A, B in (('a', 'b'), ('b', 'c'), ('c', 'a')):
+        for v1, v2 in ((1, 2), (3, 10)):
+            out.append(('do', ('define', A, v1), ('let', [(A, v2), (B, S(A))], [S(B)])))
+            out.append(('do', ('define', A, v1), ('define', B, ('let', [(A, v2), (B, ('+', S(A), 1))], [S(B)])), ('list', S(A), S(B))))
+            out.append(('do', ('define', B, ('fn', [A], [('let', [(A, ('+', S(A), 1)), (B, ('*', S(A), 2))], [S(B)])])), ('call', S(B), v1)))
+            out.append(('do', ('define', A, v1), ('list', ('let', [(A, v2), (B, ('set', [(A, 7)]))], [S(A)]), S(A))))
+            out.append(('do', ('define', A, v1), ('let', [(A, v2), (B, S(A)), ('c' if 'c' not in (A, B) else 'a', ('+', S(A), S(B)))],
+                                                  [('list', S(A), S(B))])))
+            # use, then define, then use / assign in the same function body
+            out.append(('do', ('define', A, v1), ('call', ('fn', [], [('print', S(A)), ('define', A, v2), S(A)]))))
+            out.append(('do', ('define', A, v1),
+                        ('define', B, ('fn', ['n'], [('define', 'before', S(A)), ('define', A, S('n')), ('set', [(A, ('+', S(A), 10))]),
+                                                     ('list', S('before'), S(A))])),
+                        ('list', ('call', S(B), v2), S(A))))
+            out.append(('do', ('define', A, v1),
+                        ('define', B, ('fn', [A], [('let', [('k', 2)], [('define', 'seen', S(A)), ('define', A, ('*', S('k'), S('seen'))),
+                                                                       ('set', [(A, ('+', S(A), 1))]), S(A)])])),
+                        ('list', ('call', S(B), v2), S(A))))
+    return out
